@@ -661,7 +661,7 @@ func checkChunks(i int, name string, off int, got []byte, ap *esgzref.Parsed) er
 }
 
 func TestProp_Verify(t *testing.T) {
-	pbt.Run(t, pbt.Options{Prop: "C01", Name: "Verify", Quick: 3000, Thorough: 24000, Current: true, Timeout: 120 * time.Second,
+	pbt.Run(t, pbt.Options{Prop: "C01", Name: "Verify", Quick: 3000, Thorough: 12000, Current: true, Timeout: 120 * time.Second,
 		Floors: map[string]float64{"faulted": 0.35},
 		Rule: "rapid: layer built by the repository's builder (gzip / zstd:chunked / external TOC, chunk 1-64, min-chunk, 1-11 entries) x stack config (memory/db store, memory/directory caches with tiny LRUs, registry chunk size, passthrough with merge buffer/worker settings) x one fault {bit flip, zeroed range, a member replaced by a validly compressed different payload, truncation; " +
 			"TOC: chunk digest swapped, size/offset/name changed, entry dropped/added/reordered, re-serialised} delivered by {registry from the start, registry only after an 'inject' step, rewritten compressed-chunk cache files, rewritten uncompressed-chunk cache files} x 2-14 steps of Prefetch (also concurrently with the decision), BackgroundFetch, Verify(good|wrong|altered-TOC digest), SkipVerify, second Resolve, read(file,off,len), read whole file (pread on the passthrough fd when offered); " +
